@@ -106,13 +106,15 @@ def short(b, n=24):
     return repr(b)[:80]
 
 
-def drive(p2p, stream, magic, nmsgs, chunks, tail, f, prefix):
-    """One recv_msg call per message; every outcome is compared with the reference receiver's decision."""
+def drive(p2p, stream, magic, nmsgs, chunks, tail, f, prefix_for):
+    """One recv_msg call per message; every outcome is compared with the reference receiver's decision.
+    prefix_for(i, ok) names the clause for message i (ok: the reference receives it / the reference rejects it)."""
     sock = ScriptedSocket(stream, chunks, tail)
     pos = 0
     for i in range(nmsgs):
         want = ref.receive(stream, pos, magic)
         got = recv_once(p2p, sock)
+        prefix = prefix_for(i, want["ok"])
         if want["ok"]:
             if got is NONTERM:
                 f.add(prefix + "/valid-message-did-not-terminate", f"message {i}: {sock.calls} recv calls, pos {sock.pos}/{len(stream)}")
@@ -230,7 +232,7 @@ def check_frag(case):
                 break
             pos = r["end"]
         if valid:
-            drive(p2p, stream, magic, len(msgs), case.get("chunks", []), case.get("tail", 0), f, "frag")
+            drive(p2p, stream, magic, len(msgs), case.get("chunks", []), case.get("tail", 0), f, lambda i, ok: "frag")
     return cls, f
 
 
@@ -374,7 +376,7 @@ def check_fault(case):
     magic = ref.MAGIC[case["net"]]
     fault = case["fault"]
     kind = fault["kind"]
-    prefix = "corrupt/other"
+    err_prefix, flipped_command_at = "corrupt/other", None
     if kind == "flip":
         bit = fault["bit"]
         mi, off = locate(frames, bit // 8)
@@ -391,14 +393,23 @@ def check_fault(case):
                 cls.append("nt:flip-length-larger-past-eof" if start + 24 + new > len(stream) else "nt:flip-length-larger-within-stream")
         cls.append("nt:flip-" + field)
         cls.append(f"flip-in-message-{mi}-of-{len(frames)}")
-        prefix = "corrupt/flip-" + field
+        err_prefix = "corrupt/flip-" + field
+        flipped_command_at = mi if field == "command" else None
         stream = mutated
     elif kind == "cut":
         at = fault["at"]
         stream = stream[:at]
-        prefix = "eof"
+        err_prefix = "eof"
     elif kind == "magic":
-        prefix = "corrupt/wrong-magic"
+        err_prefix = "corrupt/wrong-magic"
+
+    def prefix_for(i, ok):
+        if not ok:
+            return err_prefix
+        if i == flipped_command_at:
+            return "corrupt/flip-command"
+        return ("eof" if kind == "cut" else "corrupt") + "/intact-message"
+
     # classify by the reference's decision
     pos, verdict = 0, "expect-all-received"
     for i in range(len(frames)):
@@ -422,7 +433,7 @@ def check_fault(case):
     cls.append("delivery-" + ("whole" if not case.get("tail") else f"{case['tail']}-byte"))
     with _Net(p2p, case["net"], f) as ok:
         if ok:
-            drive(p2p, stream, magic, len(frames), case.get("chunks", []), case.get("tail", 0), f, prefix)
+            drive(p2p, stream, magic, len(frames), case.get("chunks", []), case.get("tail", 0), f, prefix_for)
     return cls, f
 
 
